@@ -91,7 +91,14 @@ pub fn run(args: &Args) {
             _ => ("@".to_string(), fixed_doc.as_bytes().to_vec()),
         };
         // input variants
-        let expr_text = if rng.chance(1, 25) { format!("{}{}", expr_text, ["\u{B}", "\u{A0}", "\u{2028}", "\u{3000}", "\u{85}"][rng.below(5)]) } else { expr_text };
+        let expr_text = if rng.chance(1, 25) {
+            format!("{}{}", expr_text, ["\u{B}", "\u{A0}", "\u{2028}", "\u{3000}", "\u{85}"][rng.below(5)])
+        } else if rng.chance(1, 25) {
+            // … or in front (a byte order mark is not a blank either, wherever the text comes from)
+            format!("{}{}", ["\u{FEFF}", "\u{FEFF}", "\u{A0}", "\u{2028}", "\u{FFFE}"][rng.below(5)], expr_text)
+        } else {
+            expr_text
+        };
         const EXOTIC_BLANKS: [&str; 10] = ["\u{B}", "\u{C}", "\u{85}", "\u{A0}", "\u{2028}", "\u{2029}", "\u{3000}", "\u{FEFF}", "\u{200B}", "\u{1680}"];
         let input: Vec<u8> = match rng.below(33) {
             // JSON that goes wrong next to a multi-byte character (diagnostics that quote the input)
